@@ -73,3 +73,57 @@ def replay_order(p):
             bad = f'IFLR order {kinds}'
     return {'reproduced': bad != '', 'ok': bad == '', 'detail': bad or 'mandated order holds',
             'sample': {'order': PERM4[perm_i], 'sets': [(e.set_type, e.set_name) for _r, e in lfv.eflrs]}}
+
+
+def replay_origin_first(p):
+    """Any add_* method of LogicalFile as the first call (before the origin) or after it: the file written has the
+    FILE-HEADER set, then the ORIGIN set, then the rest (strict reader)."""
+    sys.stderr = io.StringIO()
+    import inspect
+    from dliswriter import DLISFile
+    from dliswriter.file.file import LogicalFile
+    ai, before, named, second_too = p['args'][:4]
+    adders = sorted(n for (n, f) in inspect.getmembers(LogicalFile, inspect.isfunction)
+                    if n.startswith('add_') and n not in ('add_origin', 'add_no_format_frame_data'))
+    meth = adders[ai]
+    df = DLISFile()
+    lf = df.add_logical_file(fh_id='LF0')
+
+    def add_obj(nm):
+        kw = {}
+        if meth == 'add_frame':
+            kw['channels'] = (lf.add_channel('C-' + nm, data=np.arange(2, dtype=np.float64)),)
+        if meth == 'add_channel':
+            kw['data'] = np.arange(2, dtype=np.float64)
+        if named:
+            kw['set_name'] = 'SN'
+        return getattr(lf, meth)(nm, **kw)
+
+    try:
+        objs = []
+        if before:
+            objs.append(add_obj('X1'))
+        lf.add_origin('O1', file_set_number=7, creation_time='2020/01/01 00:00:00')
+        if not before or second_too:
+            objs.append(add_obj('X2'))
+        if meth == 'add_channel':
+            lf.add_frame('FR', channels=tuple(objs))
+        elif meth != 'add_frame':
+            ch = lf.add_channel('CH', data=np.arange(2, dtype=np.float64))
+            lf.add_frame('FR', channels=(ch,))
+        data = write_and_read(df)
+    except Exception as e:
+        return {'reproduced': True, 'ok': False, 'detail': f'raised {type(e).__name__}: {e}'}
+    try:
+        r = strict.parse_file(data)
+    except strict.StrictError as e:
+        return {'reproduced': True, 'ok': False, 'detail': f'strict reader: {e}'}
+    lfv = r['logical_files'][0]
+    sets = [e.set_type for _r, e in lfv.eflrs]
+    bad = ''
+    if sets[0] != 'FILE-HEADER' or sets[1] != 'ORIGIN':
+        bad = f'{meth} {"before" if before else "after"} add_origin: the file starts with the sets {sets[:3]}'
+    elif sets.count('ORIGIN') != 1:
+        bad = f'sets {sets}'
+    return {'reproduced': bad != '', 'ok': bad == '', 'detail': bad or 'header, origin, then the rest',
+            'sample': {'method': meth, 'sets': sets}}
